@@ -10,19 +10,346 @@ only by the (trusted) parser: both yield the same tree, which is where the model
 namespace Ladim.C18
 open Ladim Cfg
 
-/-- **defaults_are_empty_sections**: omitting any of the optional sections `state`, `grid`,
-    `ibm`, `warm_start` gives the same configuration as writing them as empty sections. -/
-theorem defaults_are_empty_sections (glob : String → List String) (c : Cfg) (k : String)
-    (hk : k = "state" ∨ k = "grid" ∨ k = "ibm" ∨ k = "warm_start") (hno : c.has k = false)
-    (hd : ∃ l, c = .dict l) :
-    configureV2 glob (c.set k emptyDict) = configureV2 glob c := by
-  sorry
+/-! ### look-up after assignment -/
+
+theorem find_map_repl (l : List (String × Cfg)) (k k' : String) (v : Cfg) :
+    (l.map (fun p => if p.1 == k then (k, v) else p)).find? (·.1 == k') =
+      if k' = k then (if l.any (·.1 == k) then some (k, v) else none) else l.find? (·.1 == k') := by
+  induction l with
+  | nil => simp
+  | cons p l ih =>
+    simp only [List.map_cons, List.find?_cons, List.any_cons, ih]
+    by_cases hp : p.1 = k
+    · by_cases hk : k' = k
+      · simp [hp, hk]
+      · have h1 : (k == k') = false := by simpa using Ne.symm hk
+        simp [hp, hk, h1]
+    · by_cases hk : k' = k
+      · have h1 : (p.1 == k) = false := by simpa using hp
+        subst hk
+        simp only [h1, Bool.false_eq_true, if_false, Bool.false_or, if_true]
+      · simp [hp, hk]
+
+theorem get?_set_dict (l : List (String × Cfg)) (k k' : String) (v : Cfg) :
+    ((Cfg.dict l).set k v).get? k' = if k' = k then some v else (Cfg.dict l).get? k' := by
+  unfold Cfg.set
+  by_cases ha : l.any (·.1 == k) = true
+  · simp only [ha, if_true, Cfg.get?, find_map_repl]
+    by_cases hk : k' = k <;> simp [hk]
+  · simp only [ha, Cfg.get?]
+    simp only [Bool.not_eq_true] at ha
+    by_cases hk : k' = k
+    · subst hk
+      have : l.find? (·.1 == k') = none := by
+        rw [List.find?_eq_none]; intro x hx
+        have := List.any_eq_false.mp ha x hx
+        simpa using this
+      simp [this]
+    · have h1 : (k == k') = false := by simpa using Ne.symm hk
+      simp [hk, h1]
+
+theorem get?_set_ne (c : Cfg) (k k' : String) (v : Cfg) (h : k' ≠ k) :
+    (c.set k v).get? k' = c.get? k' := by
+  cases c <;> try rfl
+  rw [get?_set_dict, if_neg h]
+
+theorem get?_set_self (l : List (String × Cfg)) (k : String) (v : Cfg) :
+    ((Cfg.dict l).set k v).get? k = some v := by
+  rw [get?_set_dict, if_pos rfl]
+
+theorem set_isDict (l : List (String × Cfg)) (k : String) (v : Cfg) :
+    ∃ l', (Cfg.dict l).set k v = .dict l' := by
+  unfold Cfg.set; simp only []; split <;> exact ⟨_, rfl⟩
+
+
+/-! ### `configure_v2` as a chain of steps
+
+`configureV2 glob c0 = pre (phase1 c0) >>= stepGrid glob` (`configureV2_eq'`): the defaulting of
+the optional sections, the checks of the mandatory ones, and the completion of the grid section. -/
+
+def addDefault (c : Cfg) (k : String) : Cfg := if c.has k then c else c.set k emptyDict
+
+def phase1 (c0 : Cfg) : Cfg :=
+  addDefault (addDefault (addDefault (addDefault c0 "state") "grid") "ibm") "warm_start"
+
+def stepTracker (c : Cfg) : Except String Cfg :=
+  match c.get? "tracker" with
+  | none => throw "tracker"
+  | some t => pure (if t.isNull then c.set "tracker" emptyDict else c)
+
+def stepTime (c : Cfg) : Except String Cfg :=
+  if !c.has "time" then throw "time" else pure c
+
+def stepRelease (c : Cfg) : Except String Cfg :=
+  match c.get? "release" with
+  | none => throw "release"
+  | some r => pure (if r.isNull then c.set "release" (.dict [("release_file", .str "")]) else c)
+
+def stepOutput (c : Cfg) : Except String Cfg :=
+  if !c.has "output" then throw "output" else pure c
+
+def gridModule (c grid : Cfg) : Except String Cfg :=
+  if grid.has "module" then pure grid else
+    match c.get? "forcing" with
+    | none => throw "forcing"
+    | some f => match f.get? "module" with
+      | none => throw "module"
+      | some m => pure (grid.set "module" m)
+
+def gridFilename (glob : String → List String) (c grid : Cfg) : Except String Cfg :=
+  if grid.has "filename" then pure grid else
+    match c.get? "forcing" with
+    | none => throw "forcing"
+    | some f => match f.get? "filename" with
+      | none => throw "filename"
+      | some fn => pure (grid.set "filename" (.str (gridFileFrom glob ((fn.strVal?).getD ""))))
+
+def stepGrid (glob : String → List String) (c : Cfg) : Except String Cfg :=
+  (gridModule c ((c.get? "grid").getD emptyDict) >>= gridFilename glob c) >>= fun grid => pure (c.set "grid" grid)
+
+theorem configureV2_eq (glob : String → List String) (c0 : Cfg) :
+    configureV2 glob c0 =
+      (stepTracker (phase1 c0) >>= stepTime >>= stepRelease >>= stepOutput >>= stepGrid glob) := by
+  unfold configureV2
+  extract_lets c1 c2 c3 c4
+  have h4 : phase1 c0 = c4 := rfl
+  rw [h4]
+  clear_value c4
+  rename_i jp1 jp2
+  cases ht : c4.get? "tracker" with
+  | none => simp [stepTracker, ht, bind, Except.bind, throw, throwThe, MonadExceptOf.throw]
+  | some t =>
+    simp only [stepTracker, ht, pure_bind]
+    generalize (if t.isNull = true then c4.set "tracker" emptyDict else c4) = c5
+    simp only [jp2, stepTime]
+    cases h5 : c5.has "time" with
+    | false => simp [bind, Except.bind, throw, throwThe, MonadExceptOf.throw]
+    | true =>
+      simp only [Bool.not_true, Bool.false_eq_true, if_false, pure_bind]
+      cases hr : c5.get? "release" with
+      | none => simp [stepRelease, hr, bind, Except.bind, throw, throwThe, MonadExceptOf.throw]
+      | some r =>
+        simp only [stepRelease, hr, pure_bind]
+        generalize (if r.isNull = true then c5.set "release" (dict [("release_file", str "")]) else c5) = c6
+        simp only [jp1, stepOutput]
+        cases h6 : c6.has "output" with
+        | false => simp [bind, Except.bind, throw, throwThe, MonadExceptOf.throw]
+        | true =>
+          simp only [Bool.not_true, Bool.false_eq_true, if_false, pure_bind, stepGrid, gridModule]
+          generalize ((c6.get? "grid").getD emptyDict) = g
+          unfold gridFilename
+          cases hm : g.has "module" <;> rcases c6.get? "forcing" with _ | f <;> dsimp only [] <;>
+            simp only [Bool.false_eq_true, if_false, if_true, pure_bind] <;> try rfl
+          · rcases f.get? "module" with _ | m <;> dsimp only [] <;> try rfl
+            simp only [pure_bind]
+            generalize g.set "module" m = g'
+            cases g'.has "filename" <;> simp only [Bool.false_eq_true, if_false, if_true, pure_bind]
+            rcases f.get? "filename" with _ | fn <;> rfl
+          · cases g.has "filename" <;> simp only [Bool.false_eq_true, if_false, if_true, pure_bind]
+          · cases g.has "filename" <;> simp only [Bool.false_eq_true, if_false, if_true, pure_bind]
+            rcases f.get? "filename" with _ | fn <;> rfl
+
+
+
+def isDict : Cfg → Bool
+  | .dict _ => true
+  | _ => false
+
+theorem isDict_iff (c : Cfg) : isDict c = true ↔ ∃ l, c = .dict l := by
+  cases c <;> simp [isDict]
+
+theorem isDict_set (c : Cfg) (k : String) (v : Cfg) : isDict (c.set k v) = isDict c := by
+  cases c <;> try rfl
+  rename_i l
+  obtain ⟨l', h⟩ := set_isDict l k v
+  rw [h]; rfl
+
+theorem get?_set (c : Cfg) (k k' : String) (v : Cfg) :
+    (c.set k v).get? k' = if k' = k ∧ isDict c = true then some v else c.get? k' := by
+  cases c <;> try (simp [Cfg.set, Cfg.get?, isDict]; done)
+  rename_i l
+  rw [get?_set_dict]; simp [isDict]
+
+theorem get?_none_of_not_dict (c : Cfg) (k : String) (h : isDict c = false) : c.get? k = none := by
+  cases c <;> first | rfl | simp [isDict] at h
+
+theorem isDict_of_get? (c : Cfg) (k : String) (v : Cfg) (h : c.get? k = some v) : isDict c = true := by
+  cases c <;> first | rfl | simp [Cfg.get?] at h
+
+theorem isDict_addDefault (c : Cfg) (k : String) : isDict (addDefault c k) = isDict c := by
+  unfold addDefault; split
+  · rfl
+  · exact isDict_set _ _ _
+
+theorem get?_addDefault (c : Cfg) (k k' : String) :
+    (addDefault c k).get? k' =
+      if k' = k ∧ isDict c = true then some ((c.get? k).getD emptyDict) else c.get? k' := by
+  unfold addDefault Cfg.has
+  cases h : c.get? k with
+  | none =>
+    simp only [Option.isSome_none, Bool.false_eq_true, if_false, get?_set, Option.getD_none]
+  | some v =>
+    simp only [Option.isSome_some, if_true, Option.getD_some]
+    by_cases hk : k' = k
+    · subst hk; simp [h, isDict_of_get? c k' v h]
+    · simp [hk]
+
+theorem isDict_phase1 (c : Cfg) : isDict (phase1 c) = isDict c := by
+  simp only [phase1, isDict_addDefault]
+
+theorem get?_phase1 (c : Cfg) (k' : String) :
+    (phase1 c).get? k' =
+      if (k' = "state" ∨ k' = "grid" ∨ k' = "ibm" ∨ k' = "warm_start") ∧ isDict c = true
+      then some ((c.get? k').getD emptyDict) else c.get? k' := by
+  simp only [phase1, get?_addDefault, isDict_addDefault]
+  by_cases hd : isDict c = true
+  · simp only [hd, and_true]
+    by_cases h1 : k' = "warm_start"
+    · subst h1; simp
+    by_cases h2 : k' = "ibm"
+    · subst h2; simp
+    by_cases h3 : k' = "grid"
+    · subst h3; simp
+    by_cases h4 : k' = "state"
+    · subst h4; simp
+    simp [h1, h2, h3, h4]
+  · simp [hd]
 
 /-- a wildcard forcing file name stands for its first sorted match; a literal name for itself -/
 theorem gridFileFrom_spec (glob : String → List String) (fn : String) :
     (fn.contains '*' = false ∧ fn.contains '?' = false → gridFileFrom glob fn = fn) ∧
     (∀ f rest, (fn.contains '*' = true ∨ fn.contains '?' = true) → glob fn = f :: rest → gridFileFrom glob fn = f) := by
-  sorry
+  constructor
+  · rintro ⟨h1, h2⟩
+    simp [gridFileFrom, h1, h2]
+  · intro f rest h hg
+    have : (fn.contains '*' || fn.contains '?') = true := by
+      rcases h with h | h <;> simp [h]
+    simp only [gridFileFrom, this, hg, if_true]
+
+/-- the version dispatch: an explicit version wins; otherwise a `time_control` section means
+    version 1 -/
+theorem dispatch (glob : String → List String) (c : Cfg) (hv : c.has "version" = false) :
+    configure glob c =
+      if c.has "time_control" then
+        (match configureV1 glob c with | some r => .ok r | none => .error "KeyError")
+      else configureV2 glob c := by
+  have hv' : c.get? "version" = none := by
+    simpa [Cfg.has] using hv
+  unfold configure
+  simp only [hv']
+  cases c.has "time_control"
+  · simp
+  · simp; cases configureV1 glob c <;> rfl
+
+
+/-- the mandatory-section checks, after the defaulting phase -/
+def pre (c : Cfg) : Except String Cfg :=
+  stepTracker c >>= stepTime >>= stepRelease >>= stepOutput
+
+theorem configureV2_eq' (glob : String → List String) (c0 : Cfg) :
+    configureV2 glob c0 = pre (phase1 c0) >>= stepGrid glob := configureV2_eq glob c0
+
+
+theorem bind_ok {α β : Type} (x : Except String α) (f : α → Except String β) (b : β)
+    (h : x >>= f = .ok b) : ∃ a, x = .ok a ∧ f a = .ok b := by
+  cases x with
+  | error e => cases h
+  | ok a => exact ⟨a, rfl, h⟩
+
+theorem stepTracker_ok (c c' : Cfg) (h : stepTracker c = .ok c') :
+    c.has "tracker" = true ∧ isDict c' = isDict c ∧ ∀ k, k ≠ "tracker" → c'.get? k = c.get? k := by
+  unfold stepTracker at h
+  cases ht : c.get? "tracker" with
+  | none => rw [ht] at h; cases h
+  | some t =>
+    rw [ht] at h
+    injection h with h
+    subst h
+    refine ⟨by simp [Cfg.has, ht], ?_, ?_⟩
+    · split
+      · exact isDict_set _ _ _
+      · rfl
+    · intro k hk
+      split
+      · exact get?_set_ne _ _ _ _ hk
+      · rfl
+
+theorem stepRelease_ok (c c' : Cfg) (h : stepRelease c = .ok c') :
+    c.has "release" = true ∧ isDict c' = isDict c ∧ ∀ k, k ≠ "release" → c'.get? k = c.get? k := by
+  unfold stepRelease at h
+  cases ht : c.get? "release" with
+  | none => rw [ht] at h; cases h
+  | some t =>
+    rw [ht] at h
+    injection h with h
+    subst h
+    refine ⟨by simp [Cfg.has, ht], ?_, ?_⟩
+    · split
+      · exact isDict_set _ _ _
+      · rfl
+    · intro k hk
+      split
+      · exact get?_set_ne _ _ _ _ hk
+      · rfl
+
+theorem stepTime_ok (c c' : Cfg) (h : stepTime c = .ok c') : c.has "time" = true ∧ c' = c := by
+  unfold stepTime at h
+  cases ht : c.has "time" with
+  | false => rw [ht] at h; cases h
+  | true =>
+    rw [ht] at h
+    injection h with h
+    exact ⟨rfl, h.symm⟩
+
+theorem stepOutput_ok (c c' : Cfg) (h : stepOutput c = .ok c') : c.has "output" = true ∧ c' = c := by
+  unfold stepOutput at h
+  cases ht : c.has "output" with
+  | false => rw [ht] at h; cases h
+  | true =>
+    rw [ht] at h
+    injection h with h
+    exact ⟨rfl, h.symm⟩
+
+/-- what a successful `pre` guarantees -/
+theorem pre_ok (c c' : Cfg) (h : pre c = .ok c') :
+    isDict c' = isDict c ∧ (∀ k, k ≠ "tracker" → k ≠ "release" → c'.get? k = c.get? k) ∧
+    c.has "tracker" = true ∧ c.has "time" = true ∧ c.has "release" = true ∧ c.has "output" = true := by
+  unfold pre at h
+  obtain ⟨c3, h, h4⟩ := bind_ok _ _ _ h
+  obtain ⟨c2, h, h3⟩ := bind_ok _ _ _ h
+  obtain ⟨c1, h1, h2⟩ := bind_ok _ _ _ h
+  obtain ⟨t1, d1, g1⟩ := stepTracker_ok _ _ h1
+  obtain ⟨t2, rfl⟩ := stepTime_ok _ _ h2
+  obtain ⟨t3, d3, g3⟩ := stepRelease_ok _ _ h3
+  obtain ⟨t4, rfl⟩ := stepOutput_ok _ _ h4
+  have hne : ∀ k, k ≠ "tracker" → c2.has k = c.has k := by
+    intro k hk; simp only [Cfg.has, g1 k hk]
+  refine ⟨d3.trans d1, ?_, t1, ?_, ?_, ?_⟩
+  · intro k hk1 hk2; rw [g3 k hk2, g1 k hk1]
+  · rw [← hne _ (by decide)]; exact t2
+  · rw [← hne _ (by decide)]; exact t3
+  · rw [← hne _ (by decide)]; simpa only [Cfg.has, g3 "output" (by decide)] using t4
+
+/-- the mandatory sections: without `tracker`, `time`, `release` or `output` the configuration
+    is refused (exit 3 in the code) -/
+theorem v2_mandatory (glob : String → List String) (c : Cfg) (k : String)
+    (hk : k = "tracker" ∨ k = "time" ∨ k = "release" ∨ k = "output") (hno : c.has k = false) :
+    ∃ e, configureV2 glob c = .error e := by
+  rw [configureV2_eq']
+  cases hp : pre (phase1 c) with
+  | error e => exact ⟨e, rfl⟩
+  | ok c' =>
+    exfalso
+    obtain ⟨-, -, t1, t2, t3, t4⟩ := pre_ok _ _ hp
+    have : ∀ k', (k' = "tracker" ∨ k' = "time" ∨ k' = "release" ∨ k' = "output") →
+        (phase1 c).has k' = c.has k' := by
+      intro k' hk'
+      simp only [Cfg.has, get?_phase1]
+      rcases hk' with rfl | rfl | rfl | rfl <;> simp
+    have hk' := this _ hk
+    rcases hk with rfl | rfl | rfl | rfl <;> simp_all
+
 
 /-- **grid_default_from_forcing**: with no grid section (or one without module and file), the
     grid uses the forcing module and the (first) forcing file. -/
@@ -33,23 +360,164 @@ theorem grid_default_from_forcing (glob : String → List String) (c r : Cfg) (m
     (h : configureV2 glob c = .ok r) :
     (r.get? "grid").bind (·.get? "module") = some m ∧
     (r.get? "grid").bind (·.get? "filename") = some (.str (gridFileFrom glob fn)) := by
-  sorry
+  rw [configureV2_eq'] at h
+  obtain ⟨c6, hp, h⟩ := bind_ok _ _ _ h
+  obtain ⟨d6, g6, -⟩ := pre_ok _ _ hp
+  cases hfo : c.get? "forcing" with
+  | none => rw [hfo] at hm; cases hm
+  | some f =>
+    rw [hfo] at hm hf
+    simp only [Option.bind_some] at hm hf
+    have hd : isDict c = true := isDict_of_get? _ _ _ hfo
+    rw [isDict_phase1, hd] at d6
+    have hgrid : c6.get? "grid" = some emptyDict := by
+      rw [g6 _ (by decide) (by decide), get?_phase1]
+      rcases hg with hg | hg
+      · have : c.get? "grid" = none := by simpa [Cfg.has] using hg
+        simp [hd, this]
+      · simp [hd, hg]
+    have hforc : c6.get? "forcing" = some f := by
+      rw [g6 _ (by decide) (by decide), get?_phase1]
+      simp [hfo]
+    have e1 : emptyDict.has "module" = false := rfl
+    have e3 : isDict emptyDict = true := rfl
+    have e4 : ∀ k, emptyDict.get? k = none := fun _ => rfl
+    have e2 : (emptyDict.set "module" m).has "filename" = false := by
+      simp [Cfg.has, get?_set, e4]
+    simp only [stepGrid, gridModule, gridFilename, hgrid, hforc, hm, hf, Option.getD_some, e1, e2,
+      Bool.false_eq_true, if_false, pure_bind, Cfg.strVal?] at h
+    injection h with h
+    subst h
+    simp [get?_set, d6, isDict_set, e3]
 
-/-- the mandatory sections: without `tracker`, `time`, `release` or `output` the configuration
-    is refused (exit 3 in the code) -/
-theorem v2_mandatory (glob : String → List String) (c : Cfg) (k : String)
-    (hk : k = "tracker" ∨ k = "time" ∨ k = "release" ∨ k = "output") (hno : c.has k = false) :
-    ∃ e, configureV2 glob c = .error e := by
-  sorry
 
-/-- the version dispatch: an explicit version wins; otherwise a `time_control` section means
-    version 1 -/
-theorem dispatch (glob : String → List String) (c : Cfg) (hv : c.has "version" = false) :
-    configure glob c =
-      if c.has "time_control" then
-        (match configureV1 glob c with | some r => .ok r | none => .error "KeyError")
-      else configureV2 glob c := by
-  sorry
+/-- two trees with the same sections (top-level order of keys disregarded) -/
+def Eqv (a b : Cfg) : Prop := isDict a = true ∧ isDict b = true ∧ ∀ key, a.get? key = b.get? key
+
+/-- `Eqv` lifted to results: same error, or equivalent trees -/
+def RelE : Except String Cfg → Except String Cfg → Prop
+  | .ok a, .ok b => Eqv a b
+  | .error e, .error e' => e = e'
+  | _, _ => False
+
+theorem Eqv.set {a b : Cfg} (h : Eqv a b) (k : String) (v : Cfg) : Eqv (a.set k v) (b.set k v) := by
+  obtain ⟨ha, hb, hg⟩ := h
+  refine ⟨by rw [isDict_set, ha], by rw [isDict_set, hb], ?_⟩
+  intro key
+  rw [get?_set, get?_set, ha, hb, hg]
+
+theorem Eqv.has {a b : Cfg} (h : Eqv a b) (k : String) : a.has k = b.has k := by
+  unfold Cfg.has; rw [h.2.2]
+
+theorem RelE.bind {x y : Except String Cfg} {f g : Cfg → Except String Cfg} (h : RelE x y)
+    (hfg : ∀ a b, Eqv a b → RelE (f a) (g b)) : RelE (x >>= f) (y >>= g) := by
+  cases x <;> cases y <;> first | exact h | exact hfg _ _ h | exact h.elim
+
+theorem stepTracker_congr {a b : Cfg} (h : Eqv a b) : RelE (stepTracker a) (stepTracker b) := by
+  unfold stepTracker
+  rw [h.2.2]
+  cases b.get? "tracker" with
+  | none => exact rfl
+  | some t =>
+    show Eqv _ _
+    split
+    · exact h.set _ _
+    · exact h
+
+theorem stepRelease_congr {a b : Cfg} (h : Eqv a b) : RelE (stepRelease a) (stepRelease b) := by
+  unfold stepRelease
+  rw [h.2.2]
+  cases b.get? "release" with
+  | none => exact rfl
+  | some t =>
+    show Eqv _ _
+    split
+    · exact h.set _ _
+    · exact h
+
+theorem stepTime_congr {a b : Cfg} (h : Eqv a b) : RelE (stepTime a) (stepTime b) := by
+  unfold stepTime
+  rw [h.has]
+  cases b.has "time"
+  · exact rfl
+  · exact h
+
+theorem stepOutput_congr {a b : Cfg} (h : Eqv a b) : RelE (stepOutput a) (stepOutput b) := by
+  unfold stepOutput
+  rw [h.has]
+  cases b.has "output"
+  · exact rfl
+  · exact h
+
+theorem stepGrid_congr (glob : String → List String) {a b : Cfg} (h : Eqv a b) :
+    RelE (stepGrid glob a) (stepGrid glob b) := by
+  have h1 : ∀ g, gridModule a g = gridModule b g := by
+    intro g; unfold gridModule; rw [h.2.2]
+  have h2 : gridFilename glob a = gridFilename glob b := by
+    funext g; unfold gridFilename; rw [h.2.2]
+  unfold stepGrid
+  rw [h1, h2, h.2.2]
+  cases (gridModule b ((b.get? "grid").getD emptyDict) >>= gridFilename glob b) with
+  | error e => exact rfl
+  | ok g => exact h.set _ _
+
+theorem configureV2_congr (glob : String → List String) {a b : Cfg} (h : Eqv a b) :
+    RelE (pre a >>= stepGrid glob) (pre b >>= stepGrid glob) := by
+  unfold pre
+  refine RelE.bind (RelE.bind (RelE.bind (RelE.bind (stepTracker_congr h) ?_) ?_) ?_) ?_
+  · exact fun _ _ => stepTime_congr
+  · exact fun _ _ => stepRelease_congr
+  · exact fun _ _ => stepOutput_congr
+  · exact fun _ _ => stepGrid_congr glob
+
+theorem phase1_set_eqv (c : Cfg) (k : String)
+    (hk : k = "state" ∨ k = "grid" ∨ k = "ibm" ∨ k = "warm_start") (hno : c.has k = false)
+    (hd : isDict c = true) : Eqv (phase1 (c.set k emptyDict)) (phase1 c) := by
+  refine ⟨by rw [isDict_phase1, isDict_set, hd], by rw [isDict_phase1, hd], ?_⟩
+  intro key
+  have hno' : c.get? k = none := by simpa [Cfg.has] using hno
+  simp only [get?_phase1, get?_set, isDict_set, hd, and_true]
+  by_cases hkey : key = k
+  · subst hkey
+    simp [hk, hno']
+  · simp [hkey]
+
+/-- **defaults_are_empty_sections**: omitting any of the optional sections `state`, `grid`,
+    `ibm`, `warm_start` gives the same configuration as writing them as empty sections.
+
+    "The same" is equality of every section (`get?`), or the same error.  Literal equality of the
+    two trees fails on the ORDER of the top-level keys only: `c.set k emptyDict` appends `k` at
+    once, whereas `configure_v2` appends the missing sections in the order state, grid, ibm,
+    warm_start.  With `c = {tracker: {}, time: {}, release: {}, output: {}, forcing: {module: m,
+    filename: f}}` and `k = "grid"` the keys come out as `…, forcing, grid, state, ibm, warm_start`
+    for `c.set "grid" {}` and as `…, forcing, state, grid, ibm, warm_start` for `c`.
+    (`defaults_are_empty_sections_state` below: for `k = "state"` the trees are literally equal.) -/
+theorem defaults_are_empty_sections (glob : String → List String) (c : Cfg) (k : String)
+    (hk : k = "state" ∨ k = "grid" ∨ k = "ibm" ∨ k = "warm_start") (hno : c.has k = false)
+    (hd : ∃ l, c = .dict l) :
+    match configureV2 glob (c.set k emptyDict), configureV2 glob c with
+    | .ok a, .ok b => ∀ key, a.get? key = b.get? key
+    | .error e, .error e' => e = e'
+    | _, _ => False := by
+  have h := configureV2_congr glob (phase1_set_eqv c k hk hno ((isDict_iff c).mpr hd))
+  rw [← configureV2_eq', ← configureV2_eq'] at h
+  revert h
+  cases configureV2 glob (c.set k emptyDict) <;> cases configureV2 glob c <;> intro h
+  · exact h
+  · exact h
+  · exact h
+  · exact h.2.2
+
+
+/-- for the first defaulted section the two results are literally equal -/
+theorem defaults_are_empty_sections_state (glob : String → List String) (c : Cfg)
+    (hno : c.has "state" = false) (hd : ∃ l, c = .dict l) :
+    configureV2 glob (c.set "state" emptyDict) = configureV2 glob c := by
+  have h1 : (c.set "state" emptyDict).has "state" = true := by
+    simp [Cfg.has, get?_set, (isDict_iff c).mpr hd]
+  have : phase1 (c.set "state" emptyDict) = phase1 c := by
+    simp only [phase1, addDefault, h1, hno, if_true, Bool.false_eq_true, if_false]
+  rw [configureV2_eq', configureV2_eq', this]
 
 /-! ### version 1 means the same as version 2 -/
 
@@ -120,11 +588,152 @@ structure SimOK (s : Sim) : Prop where
   notReserved : ∀ v ∈ s.outInst ++ s.outPart, v.1 ∉ ["outper", "instance", "particle", "format"]
   noTypeOverride : ∀ v ∈ s.relVars, v ∉ ["variables", "particle_variables", "release_type", "release_frequency"]
 
+theorem filterMap_strs (l : List String) : (strs l).listItems.filterMap Cfg.strVal? = l := by
+  simp only [strs, Cfg.listItems, List.filterMap_map]
+  induction l with
+  | nil => rfl
+  | cons a l ih => simp [Cfg.strVal?, ih] 
+
+
+theorem get?_cons_ne (k k' : String) (v : Cfg) (l : List (String × Cfg)) (h : k ≠ k') :
+    (Cfg.dict ((k, v) :: l)).get? k' = (Cfg.dict l).get? k' := by
+  have : (k == k') = false := by simpa using h
+  simp only [Cfg.get?, List.find?_cons, this]
+
+theorem find_map_key {α : Type} (l : List α) (key : α → String) (f : α → String × Cfg)
+    (hf : ∀ a, (f a).1 = key a) (hnd : (l.map key).Nodup) (x : α) (hx : x ∈ l) :
+    (l.map f).find? (·.1 == key x) = some (f x) := by
+  induction l with
+  | nil => cases hx
+  | cons a l ih =>
+    simp only [List.map_cons, List.nodup_cons] at hnd
+    simp only [List.map_cons, List.find?_cons, hf]
+    rcases List.mem_cons.mp hx with rfl | hx'
+    · simp
+    · have : key a ≠ key x := fun h => hnd.1 (h ▸ List.mem_map_of_mem hx')
+      have : (key a == key x) = false := by simpa using this
+      rw [this]
+      exact ih hnd.2 hx'
+
+def outV (v : String × Cfg × Cfg) : String × Cfg :=
+  (v.1, .dict [("encoding", .dict [("datatype", v.2.1)]), ("attributes", (v.2.2.set "ncformat" v.2.1).erase "ncformat")])
+
+theorem mapM_outVar (ov : Cfg) (l : List (String × Cfg × Cfg))
+    (h : ∀ v ∈ l, ov.get? v.1 = some (v.2.2.set "ncformat" v.2.1)) (hd : ∀ v ∈ l, ∃ l', v.2.2 = .dict l') :
+    List.mapM (fun v => (ov.get? v).bind fun d => (d.get? "ncformat").bind fun fmt =>
+        (pure (v, Cfg.dict [("encoding", .dict [("datatype", fmt)]), ("attributes", d.erase "ncformat")]) : Option (String × Cfg)))
+      (l.map (·.1)) = some (l.map outV) := by
+  induction l with
+  | nil => rfl
+  | cons a l ih =>
+    have ih' := ih (fun v hv => h v (List.mem_cons_of_mem _ hv)) (fun v hv => hd v (List.mem_cons_of_mem _ hv))
+    obtain ⟨l', hl'⟩ := hd a List.mem_cons_self
+    rw [List.map_cons, List.mapM_cons, ih', h a List.mem_cons_self]
+    simp only [Option.bind_some, hl', get?_set_self, Option.pure_def, Option.bind_eq_bind, List.map_cons, outV]
+
+theorem configureV1_render (glob : String → List String) (s : Sim) (hs : SimOK s) :
+    configureV1 glob (renderV1 s) = some (canonV2 s) := by
+  obtain ⟨tc, h_tc, tc1, tc2, tc3⟩ : ∃ tc, (renderV1 s).get? "time_control" = some tc ∧
+      tc.get? "start_time" = some s.start ∧ tc.get? "stop_time" = some s.stop ∧ tc.get? "reference_time" = none :=
+    ⟨_, by simp only [renderV1, Cfg.get?]; simp; rfl, by simp [Cfg.get?], by simp [Cfg.get?], by simp [Cfg.get?]⟩
+  obtain ⟨nu, h_num, nu1, nu2, nu3⟩ : ∃ nu, (renderV1 s).get? "numerics" = some nu ∧
+      nu.get? "dt" = some s.dt ∧ nu.get? "advection" = some s.advection ∧ nu.get? "diffusion" = some (.num 0) :=
+    ⟨_, by simp only [renderV1, Cfg.get?]; simp; rfl, by simp [Cfg.get?], by simp [Cfg.get?], by simp [Cfg.get?]⟩
+  obtain ⟨fi, h_files, fi1, fi2⟩ : ∃ fi, (renderV1 s).get? "files" = some fi ∧
+      fi.get? "particle_release_file" = some (.str s.relFile) ∧ fi.get? "output_file" = some (.str s.outFile) :=
+    ⟨_, by simp only [renderV1, Cfg.get?]; simp; rfl, by simp [Cfg.get?], by simp [Cfg.get?]⟩
+  obtain ⟨gf, h_gf, gf1, gf2, gf3, gf4, gf5⟩ : ∃ gf, (renderV1 s).get? "gridforce" = some gf ∧
+      gf.get? "module" = some (.str "ladim.ROMS") ∧ gf.get? "input_file" = some (.str s.forcingFile) ∧
+      gf.get? "gridfile" = some (.str s.gridFile) ∧ gf.get? "extra_forcing" = some (strs s.extraForcing) ∧
+      gf.get? "subgrid" = none :=
+    ⟨_, by simp only [renderV1, Cfg.get?]; simp; rfl, by simp [Cfg.get?], by simp [Cfg.get?], by simp [Cfg.get?],
+      by simp [Cfg.get?], by simp [Cfg.get?]⟩
+  have h_ibm : (renderV1 s).get? "ibm" = some (.dict [("ibm_module", .str s.ibmModule), ("variables", strs s.ibmVars)]) := by
+    simp [renderV1, Cfg.get?]
+  have ib1 : (Cfg.dict [("ibm_module", .str s.ibmModule), ("variables", strs s.ibmVars)]).get? "variables" =
+      some (strs s.ibmVars) := by simp [Cfg.get?]
+  have h_ws : (renderV1 s).has "warm_start" = false := by
+    simp [renderV1, Cfg.get?, Cfg.has]
+  obtain ⟨pr, h_pr, pr1, pr2, pr3, pr4, pr5⟩ : ∃ pr, (renderV1 s).get? "particle_release" = some pr ∧
+      pr.get? "variables" = some (strs s.relVars) ∧ pr.get? "particle_variables" = some (strs s.pvars) ∧
+      pr.get? "release_type" = (if s.continuous then some (.str "continuous") else none) ∧
+      pr.get? "release_frequency" = (if s.continuous then some s.freq else none) ∧
+      ∀ v ∈ s.relVars, pr.get? v = none := by
+    refine ⟨_, by simp only [renderV1, Cfg.get?]; simp; rfl, ?_, ?_, ?_, ?_, ?_⟩
+    · simp [Cfg.get?]
+    · simp [Cfg.get?]
+    · cases s.continuous <;> simp [Cfg.get?]
+    · cases s.continuous <;> simp [Cfg.get?]
+    · intro v hv
+      have := hs.noTypeOverride v hv
+      simp only [List.mem_cons, List.not_mem_nil, or_false, not_or] at this
+      obtain ⟨n1, n2, n3, n4⟩ := this
+      have e1 : ("variables" == v) = false := by simpa using Ne.symm n1
+      have e2 : ("particle_variables" == v) = false := by simpa using Ne.symm n2
+      have e3 : ("release_type" == v) = false := by simpa using Ne.symm n3
+      have e4 : ("release_frequency" == v) = false := by simpa using Ne.symm n4
+      cases s.continuous <;> simp [Cfg.get?, e1, e2, e3, e4]
+  obtain ⟨ov, h_ov, ov1, ov2, ov3, ov4, ov5⟩ : ∃ ov, (renderV1 s).get? "output_variables" = some ov ∧
+      ov.get? "outper" = some s.outper ∧ ov.get? "instance" = some (strs (s.outInst.map (·.1))) ∧
+      ov.get? "particle" = some (strs (s.outPart.map (·.1))) ∧ ov.get? "format" = none ∧
+      ∀ v ∈ s.outInst ++ s.outPart, ov.get? v.1 = some (v.2.2.set "ncformat" v.2.1) := by
+    refine ⟨.dict (("outper", s.outper) :: ("instance", strs (s.outInst.map (·.1))) ::
+        ("particle", strs (s.outPart.map (·.1))) ::
+        (s.outInst ++ s.outPart).map (fun v => (v.1, (v.2.2.set "ncformat" v.2.1)))), ?_, ?_, ?_, ?_, ?_, ?_⟩
+    · simp [renderV1, Cfg.get?]
+    · simp [Cfg.get?]
+    · simp [Cfg.get?]
+    · simp [Cfg.get?]
+    · rw [get?_cons_ne _ _ _ _ (by decide), get?_cons_ne _ _ _ _ (by decide), get?_cons_ne _ _ _ _ (by decide)]
+      simp only [Cfg.get?, Option.map_eq_none_iff]
+      rw [List.find?_eq_none]
+      intro x hx
+      obtain ⟨v, hv, rfl⟩ := List.mem_map.mp hx
+      have := hs.notReserved v hv
+      simp only [List.mem_cons, List.not_mem_nil, or_false, not_or] at this
+      simpa using this.2.2.2
+    · intro v hv
+      have := hs.notReserved v hv
+      simp only [List.mem_cons, List.not_mem_nil, or_false, not_or] at this
+      obtain ⟨n1, n2, n3, n4⟩ := this
+      rw [get?_cons_ne _ _ _ _ (Ne.symm n1), get?_cons_ne _ _ _ _ (Ne.symm n2), get?_cons_ne _ _ _ _ (Ne.symm n3)]
+      have := find_map_key (s.outInst ++ s.outPart) (·.1) (fun v => (v.1, (v.2.2.set "ncformat" v.2.1)))
+        (fun _ => rfl) hs.namesNodup v hv
+      simp only [Cfg.get?, this, Option.map_some]
+  unfold configureV1
+  rw [h_tc, h_num, h_gf, h_files, h_pr, h_ov, h_ibm, h_ws]
+  dsimp only [bind, Option.bind_some, Option.getD_some]
+  rw [tc1, tc2, tc3, nu1, nu2, nu3, fi1, fi2, gf1, gf2, gf3, gf4, gf5, ib1, pr1, pr2, pr3, pr4, ov1, ov2, ov3, ov4]
+  dsimp only [bind, Option.bind_some, Option.getD_some, Option.map_some, Option.getD_none]
+  simp only [filterMap_strs]
+  rw [mapM_outVar ov s.outInst (fun v hv => ov5 v (List.mem_append_left _ hv)) (fun v hv => hs.attrsDict v (List.mem_append_left _ hv)),
+    mapM_outVar ov s.outPart (fun v hv => ov5 v (List.mem_append_right _ hv)) (fun v hv => hs.attrsDict v (List.mem_append_right _ hv))]
+  have tg : (Cfg.str s.gridFile).truthy = true := by simp [Cfg.truthy, hs.gridGiven]
+  have t0 : (Cfg.num 0).truthy = false := by simp [Cfg.truthy]
+  have hpv : ∀ P : String → Bool, List.map (fun v => (v, (pr.get? v).getD (Cfg.str "float"))) (s.relVars.filter P) =
+      List.map (fun v => (v, Cfg.str "float")) (s.relVars.filter P) := fun P =>
+    List.map_congr_left (fun v hv => by rw [pr5 v (List.mem_of_mem_filter hv)]; rfl)
+  rw [hpv, tg, t0]
+  unfold canonV2
+  cases hc : s.continuous
+  · simp [Cfg.strVal?, Cfg.items, outV, Function.comp_def]
+  · simp [Cfg.strVal?, Cfg.items, outV, Function.comp_def]
+
+theorem configureV2_fix (glob : String → List String) (T M F Fo S I W O : Cfg) (Tl Rl : List (String × Cfg)) :
+    configureV2 glob (.dict [("time", T), ("grid", .dict [("module", M), ("filename", F)]), ("forcing", Fo),
+      ("state", S), ("tracker", .dict Tl), ("release", .dict Rl), ("ibm", I), ("warm_start", W), ("output", O)]) =
+    .ok (.dict [("time", T), ("grid", .dict [("module", M), ("filename", F)]), ("forcing", Fo),
+      ("state", S), ("tracker", .dict Tl), ("release", .dict Rl), ("ibm", I), ("warm_start", W), ("output", O)]) := by
+  rw [configureV2_eq']
+  simp [pre, phase1, addDefault, stepTracker, stepTime, stepRelease, stepOutput, stepGrid, gridModule, gridFilename,
+    Cfg.has, Cfg.get?, Cfg.set, Cfg.isNull]
+  rfl
+
 /-- **v1_eq_v2**: the translation of the legacy spelling is exactly the completed version-2
     configuration of the same simulation, and that one is a fixed point of `configure_v2`
     (so both spellings hand the same sections to the module constructors). -/
 theorem v1_eq_v2 (glob : String → List String) (s : Sim) (hs : SimOK s) :
-    configureV1 glob (renderV1 s) = some (canonV2 s) ∧ configureV2 glob (canonV2 s) = .ok (canonV2 s) := by
-  sorry
+    configureV1 glob (renderV1 s) = some (canonV2 s) ∧ configureV2 glob (canonV2 s) = .ok (canonV2 s) :=
+  ⟨configureV1_render glob s hs, configureV2_fix glob _ _ _ _ _ _ _ _ _ _⟩
 
 end Ladim.C18
